@@ -167,6 +167,24 @@ def c09 (c : Ctx) (prevFailed : List String) (ob : Obs) : Verdict :=
     | none => .na
   a.both b
 
+/-! ## C14 (at the level of the binary) -/
+
+/-- `--force` on an invocation that runs tasks (named ones, or the default task) and in which nothing fails: every task
+    of the closure really executed (its markers are in the side-effect log) and none is reported as skipped -/
+def c14 (c : Ctx) (ob : Obs) : Verdict :=
+  match runRequest c with
+  | some req =>
+    let executed := (groupLog ob.log).filterMap (fun g => (taskAt c g.1).map (·.name))
+    let run := closure c req
+    -- a task without commands leaves no marker: only tasks with commands can be seen to have executed
+    let visible := run.filter (fun n => match findTask c n with | some t => !t.cmds.isEmpty | none => false)
+    whenever (c.opts.force && (failedTasks c ob.log).isEmpty && ob.exit == 0)
+      (visible.all executed.contains &&
+       (match ob.json with
+        | .doc rs => rs.all (fun r => !r.skipped)
+        | _ => true))
+  | none => .na
+
 /-! ## C19 -/
 
 /-- `filepath.Dir` on a clean relative path -/
